@@ -13,7 +13,7 @@ import rulesets
 
 ID = "C08"
 TRUSTED = ["harness/translate_kernel.py: fail-closed ast translator of _find_prob / _are_you_my_child / find_children / "
-           "is_parent_around / _recursive_restore_prob_order / initalize_base_structures into gen/Kernel_gen.v (accepted subset and "
+           "is_parent_around / _recursive_restore_prob_order / initalize_base_structures (other methods of the class they call are inlined) into gen/Kernel_gen.v (accepted subset and "
            "conventions in its header; out-of-range subscripts = the parameters undef_prob/undef_node), and the runtime KernelRt.v it targets",
            "CPython heapq contract", "str(float) / configparser.getfloat round trip is the identity (exercised on every saved probability)",
            "the saved probability is that of the popped, un-guessed pre-terminal (session loop, see C12)"]
